@@ -439,7 +439,7 @@ struct CIterator {
         }
     };
 
-    constexpr iterator begin() {
+    inline iterator begin() {
         return iterator(this);
     }
 
